@@ -88,6 +88,11 @@ def check(ctx):
                 while st is not None and not isinstance(st, ast.stmt):
                     st = prog.parent(st)
                 ok = isinstance(st, ast.Assign) and isinstance(st.targets[0], ast.Subscript) and canon(st.targets[0].value) == "self" and fn.cls is R.result_cls and st.value is node
+                if not ok and fn.cls is R.result_cls and isinstance(st, ast.Expr) and isinstance(st.value, ast.Call) and isinstance(st.value.func, ast.Attribute) and st.value.func.attr in ("update", "__setitem__", "setdefault") and canon(st.value.func.value) in ("self", "super()", "dict"):
+                    # the same store spelled self.update({"fun": <target>}) / self.update(fun=<target>) / dict.__setitem__(self, "fun", <target>)
+                    call_ = st.value
+                    vals_ = [k_.value for k_ in call_.keywords] + [a_ for a_ in call_.args if not isinstance(a_, ast.Dict)] + [v_ for a_ in call_.args if isinstance(a_, ast.Dict) for v_ in a_.values]
+                    ok = any(v_ is node for v_ in vals_)
                 ctx.check(ok, fn, node, "reference to the target stored in the result only", "the target callable escapes through an alias outside the logger (it could be called without being counted)", construct=f"alias of target in {norm_stmt(st)[:60]}")
     for fn in prog.functions():
         if fn.cls is R.bads or fn.cls is None:
